@@ -29,6 +29,7 @@ func main() {
 	replay := flag.String("replay", "", "replay file")
 	list := flag.Bool("list", false, "list scenarios")
 	prof := flag.String("cpuprofile", "", "write cpu profile")
+	memprof := flag.String("memprofile", "", "write heap profile when the worker's input ends")
 	flag.Parse()
 	if *prof != "" {
 		f, _ := os.Create(*prof)
@@ -49,6 +50,11 @@ func main() {
 	}
 	if *worker {
 		workerMain(rc)
+		if *memprof != "" {
+			f, _ := os.Create(*memprof)
+			pprof.WriteHeapProfile(f)
+			f.Close()
+		}
 		return
 	}
 	if *list {
